@@ -32,7 +32,7 @@ class {{ error_code.cpp.deprecated ~ type_def.cpp.name }}::{{ error_code.cpp.nam
 public:
     //> for parameter in error_code.parameters:
     //? parameter.comment : parameter.cpp.comment | comment | indent
-    const {{ parameter.cpp.type_spec }} {{ parameter.cpp.name }};
+    const {{ parameter.cpp.field_type_spec }} {{ parameter.cpp.name }};
     //> endfor
     //? error_code.cpp.constructor_comment : error_code.cpp.constructor_comment | comment | indent
     explicit {{ error_code.cpp.name }}(
